@@ -1,0 +1,20 @@
+// Copyright 2026 The Mellium Contributors.
+// Use of this source code is governed by the BSD 2-clause
+// license that can be found in the LICENSE file.
+
+//go:build verif
+
+package xmpp
+
+import (
+	"encoding/xml"
+
+	"mellium.im/xmpp/internal/marshal"
+)
+
+// VerifTokenReader is internal/marshal.TokenReader: the conversion of a value
+// into a token reader that the Encode and Send families use. It only exists in
+// builds with the "verif" tag.
+func VerifTokenReader(v interface{}) (xml.TokenReader, error) {
+	return marshal.TokenReader(v)
+}
